@@ -31,6 +31,12 @@ def check(ctx: Ctx):
         "weighted mean and the padding/shift ratio, renderer rules for the images being located, and the exact volume↔radius formulas."
     )
     locate.check_frames(ctx)
+    # every grid of a family must reach the anchored locator of that family: a second locator for "simple" grids by-passes the
+    # periodic merging and the wrap into the box for grids it was not meant for (e.g. mixed periodicity)
+    from . import c09 as _c09
+    from ..rules import support
+
+    support.compose(ctx, _c09.check_grid_dispatch, keep=("EXHAUST",))
     locate.check_cartesian_flow(ctx)
     locate.check_cartesian_volume(ctx)
     locate.check_merge(ctx)
@@ -55,6 +61,7 @@ def check(ctx: Ctx):
     table = c12.formulas(ctx)
     c12.identities(ctx, table)
     ctx.expect("FRAME", 3)
+    ctx.expect("EXHAUST", 4)
     ctx.expect("CONNECT", 3)
     ctx.expect("DIM", 3)
     ctx.expect("FLOW", 6)
